@@ -4,6 +4,7 @@ C03 - property theorems: assignment writes exactly the addressed cells.
 import DimModel.Lib.GetSet
 import DimModel.Gen.TableC03
 import DimModel.Proofs.C03Put
+import DimModel.Proofs.C03Zero
 namespace DimModel
 open Lib
 
@@ -630,11 +631,11 @@ theorem putIndices_checked (axes : List Axis) (raw : List RawIx)
     putIndices axes raw = resolveAll axes raw := by
   unfold putIndices resolveAll
   simp only []
-  generalize hb : List.any (raw.zip axes) _ = b
+  generalize hb : List.any (arrayKeys axes raw) _ = b
   have hbf : b = false := by
     rw [← hb, List.any_eq_false]
     rintro ⟨r, ax⟩ hx
-    have := h (r, ax) hx
+    have := h (r, ax) (arrayKeys_subset axes raw _ hx)
     cases r with
     | slice s e st =>
       simp only [rawSelectsNothing] at this
@@ -680,6 +681,137 @@ example : put exArr (.tuple [.scalar (.num 5), fullIx]) (.scalar 7) .i { indexin
   rcases hx with rfl | rfl <;> rfl
 
 
+
+
+/-! ### 2c. an index that selects nothing (zero-length axes, empty lists / slices, all-`False` masks) -/
+
+/-- the emptiness test inside `putIndices` is `rawSelectsNothing` on the index arrays of the key -/
+theorem putIndices_cases (axes : List Axis) (raw : List RawIx) (c : Bool)
+    (h : (arrayKeys axes raw).any (fun x => rawSelectsNothing x.1 x.2.size) = c) :
+    putIndices axes raw = if c then (raw.zip axes).mapM uncheckedRaw else resolveAll axes raw := by
+  unfold putIndices resolveAll
+  simp only []
+  generalize hb : List.any (arrayKeys axes raw) _ = b
+  have hbc : b = c := by
+    rw [← hb, ← h]
+    congr 1
+  subst hbc
+  cases b with
+  | true =>
+    simp only [if_true]
+    congr 1
+    funext ⟨r, ax⟩
+    cases r <;> simp [uncheckedRaw]
+  | false =>
+    simp only [Bool.false_eq_true, if_false]
+    congr 1
+    funext ⟨r, ax⟩
+    cases r <;> simp
+
+/-- **`put_zero_length`** (all modes, all index forms).  `_get_indices` returned `raw`, and on some dimension
+the index selects nothing - the dimension has length zero, the list is empty, the mask has no `True`, the slice
+is empty.  Then
+* **nothing is written**: if the assignment succeeds every cell, the axes, the metadata and the shape are what
+  they were (only the dtype kind follows `cast`);
+* it succeeds exactly when NumPy accepts the per-dimension indices (`putIndices`) and the right-hand side
+  broadcasts to the shape of the (empty) selection;
+* NumPy's acceptance: when every INDEX ARRAY of the key selects something (`arrayKeys`: integers and the full
+  slices at the start / at the end of the key are not index arrays - so the empty dimension is one that
+  `orthogonal_indexer` left as a slice), the positions are checked exactly as the read checks them
+  (`resolveAll`: a position beyond its axis is an `IndexError`); when some index array selects nothing the
+  positions inside lists and masks are not looked at (`uncheckedRaw`: only their length enters the shape),
+  integers and slices are still checked. -/
+theorem put_zero_length {α : Type} (a : DimArray α) (ui : UserIndex) (rhs : RHS α) (rk : Kind) (cfg : IndexCfg)
+    (cast : Bool) (raw : List RawIx)
+    (hraw : getIndices a.axes ui { cfg with keepdims := false } = .ok raw)
+    (hempty : (raw.zip a.axes).any (fun x => rawSelectsNothing x.1 x.2.size) = true) :
+    (∀ r, put a ui rhs rk cfg cast = .ok r →
+      r.axes = a.axes ∧ r.attrs = a.attrs ∧ r.vals.shape = a.vals.shape ∧ (∀ j, r.vals.get j = a.vals.get j) ∧
+      r.vkind = (if cast then maybeCastKind a.vkind rk else a.vkind)) ∧
+    ((∃ r, put a ui rhs rk cfg cast = .ok r) ↔
+      ∃ pix, putIndices a.axes raw = .ok pix ∧ 0 ∈ outerShape pix ∧ ∃ vget, putRhs rhs (outerShape pix) = .ok vget) ∧
+    ((arrayKeys a.axes raw).any (fun x => rawSelectsNothing x.1 x.2.size) = false →
+      putIndices a.axes raw = resolveAll a.axes raw) ∧
+    ((arrayKeys a.axes raw).any (fun x => rawSelectsNothing x.1 x.2.size) = true →
+      putIndices a.axes raw = (raw.zip a.axes).mapM uncheckedRaw) := by
+  have hzero : ∀ pix, putIndices a.axes raw = .ok pix → 0 ∈ outerShape pix := by
+    intro pix hpix
+    unfold putIndices at hpix
+    simp only [] at hpix
+    generalize hb : List.any (arrayKeys a.axes raw) _ = b at hpix
+    refine anyEmpty_zero_mem_put _ (fun x => rawSelectsNothing x.1 x.2.size) b ?_ ?_ ?_ ?_ ?_ ?_ ?_ _ pix hpix hempty
+    · intro _ _; rfl
+    · intro _ _; rfl
+    · intro _ _ _ _; rfl
+    · intro _ _; rfl
+    · intro _ _; rfl
+    · intro s e st ax ps hps; simp only [rawSelectsNothing, hps]
+    · intro _ _; rfl
+  refine ⟨?_, ?_, ?_, ?_⟩
+  · intro r hr
+    have hk := put_kind a r ui rhs rk cfg cast hr
+    obtain ⟨h1, h2, h3⟩ := put_labels_unchanged a r ui rhs rk cfg cast hr
+    refine ⟨h1, h2, h3, ?_, hk⟩
+    intro j
+    unfold put at hr
+    simp only [hraw, bind, Except.bind] at hr
+    cases hpix : putIndices a.axes raw with
+    | error e => rw [hpix] at hr; cases hr
+    | ok pix =>
+      rw [hpix] at hr
+      simp only at hr
+      cases hv : putRhs rhs (outerShape pix) with
+      | error e => rw [hv] at hr; cases hr
+      | ok vget =>
+        rw [hv] at hr
+        simp only [pure, Except.pure, Except.ok.injEq] at hr
+        subst hr
+        simp [putVals, selCoord_none_of_zero pix j (hzero pix hpix)]
+  · constructor
+    · rintro ⟨r, hr⟩
+      unfold put at hr
+      simp only [hraw, bind, Except.bind] at hr
+      cases hpix : putIndices a.axes raw with
+      | error e => rw [hpix] at hr; cases hr
+      | ok pix =>
+        rw [hpix] at hr
+        simp only at hr
+        cases hv : putRhs rhs (outerShape pix) with
+        | error e => rw [hv] at hr; cases hr
+        | ok vget => exact ⟨pix, rfl, hzero pix hpix, vget, hv⟩
+    · rintro ⟨pix, hpix, _, vget, hv⟩
+      unfold put
+      simp only [hraw, bind, Except.bind, hpix, hv]
+      exact ⟨_, rfl⟩
+  · intro h
+    rw [putIndices_cases a.axes raw false h]; rfl
+  · intro h
+    rw [putIndices_cases a.axes raw true h]; rfl
+
+/-- a 2 x 0 array (axes x = [b, a], y = []) and a 3 x 0 x 2 array -/
+def c03exZero : DimArray Nat :=
+  { axes := [{ name := "x", labels := [.str "b", .str "a"], kind := .O }, { name := "y", labels := [], kind := .i }]
+    vals := { shape := [2, 0], get := fun _ => 0 } }
+
+def c03exZero3 : DimArray Nat :=
+  { axes := [{ name := "x", labels := [.num 1, .num 2, .num 3], kind := .i }, { name := "y", labels := [], kind := .i },
+             { name := "z", labels := [.num 1, .num 2], kind := .i }]
+    vals := { shape := [3, 0, 2], get := fun _ => 0 } }
+
+/-- both branches are inhabited, and the hypothesis of the unchecked branch is needed (counterexample):
+`a.ix[[5], :] = 7` on the 2 x 0 array is an `IndexError` (the empty dimension is a trailing full slice, which stays a
+slice: position 5 is checked), although the selection is empty; `a.ix[[5], :, [1]] = 7` on the 3 x 0 x 2 array
+succeeds (the full slice stands between two index arrays and becomes an empty index array: position 5 is not
+looked at), and so does `a.ix[[5], 0:0] = 7` on the 2 x 3 example; an integer beyond its axis is refused in any case -/
+theorem put_zero_length_counterexample :
+    (match put c03exZero (.tuple [.list [.num 5], fullIx]) (.scalar 7) .i { indexing := some .position } false with
+      | .error e => some e | .ok _ => none) = some Err.index ∧
+    (put c03exZero3 (.tuple [.list [.num 5], fullIx, .list [.num 1]]) (.scalar 7) .i { indexing := some .position } false).toOption.isSome = true ∧
+    (put exArr (.tuple [.list [.num 5], .slice (some (.num 0)) (some (.num 0)) none]) (.scalar 7) .i
+      { indexing := some .position } false).toOption.isSome = true ∧
+    (match put c03exZero3 (.tuple [.scalar (.num 5), fullIx, .list []]) (.scalar 7) .i { indexing := some .position } false with
+      | .error e => some e | .ok _ => none) = some Err.index := by
+  refine ⟨by decide, by decide, by decide, by decide⟩
 
 /-! ### 4. kind / `cast`, end to end -/
 
